@@ -1,6 +1,6 @@
 (* C12 — the expansion cutoff never shrinks and keeps headroom. *)
 From Coq Require Import List QArith ZArith NArith Bool Arith.
-From QmcV Require Import Model.Prog Model.Sse Model.Ham Model.Diagonal Model.Steps Proofs.StepProofs.
+From QmcV Require Import Model.Prog Model.Sse Model.Ham Model.Diagonal Model.Steps Proofs.StepProofs Generated.CutoffRules Proofs.CutoffRules.
 Import ListNotations.
 Local Open Scope nat_scope.
 
@@ -52,6 +52,21 @@ Theorem C12_count_le_cutoff : forall slot L st sl p sl' n' st',
   In (p, (sl', n', st')) (denote (diagonal_update slot L st sl)) -> n' <= L.
 Proof. exact diagonal_update_headroom. Qed.
 Print Assumptions C12_count_le_cutoff.
+
+(* the growth rules as the SOURCE states them now (re-translated on every run by tools/extract.py):
+   each of the three assignments never shrinks the cutoff, leaves a free slot and a margin of n/2,
+   and is the rule the model uses *)
+Theorem C12_source_rules_keep_headroom : Forall site_ok cutoff_rule_sites.
+Proof. exact source_rules_keep_headroom. Qed.
+Print Assumptions C12_source_rules_keep_headroom.
+
+Theorem C12_source_rules_are_the_model_rule : Forall site_is_model cutoff_rule_sites.
+Proof. exact source_rules_are_the_model_rule. Qed.
+Print Assumptions C12_source_rules_are_the_model_rule.
+
+Theorem C12_source_rule_sites_found : List.length cutoff_rule_sites = 3.
+Proof. exact source_rule_sites_found. Qed.
+Print Assumptions C12_source_rule_sites_found.
 
 (* non-vacuity: a run started at cutoff 1 grows (the pre-fix rule max(c, n + n/2) would stay at 1) *)
 Example C12_ex_growth_from_one : cutoffs 1 [1; 2; 3; 5] = [1; 2; 4; 5; 8].
